@@ -54,6 +54,15 @@ class SieveProgram(Program):
                 raise Panic('index out of bounds (symbolic index)', 'index')
             # read at a symbolic index: if-then-else chain over the (concrete-length) table
             items = v.items
+            if n > 1024:
+                # large table: narrow the index to its feasible interval [lo, hi] under the path condition (binary search,
+                # 2*log2(n) solver queries) and build the chain over that slice only -- exact, since lo <= idx <= hi is implied
+                lo, hi = m.index_interval(idx, n)
+                if hi - lo + 1 > 2048:
+                    raise Unsupported('symbolic index into a table of %d entries spans %d of them' % (n, hi - lo + 1))
+                items = items[lo:hi + 1]
+                n = len(items)
+                idx = mk_int(idx.v - lo, idx.ty)
             if all(isinstance(x, bool) for x in items):
                 e = z3.BoolVal(items[-1]) if n else z3.BoolVal(False)
                 for k in range(n - 2, -1, -1):
@@ -113,8 +122,9 @@ class SieveProgram(Program):
         return None
 
 
-def check_limit(P, N, do_factorize=True, fact_lo=1, tables=True):
-    """-> dict(records=[...]) for one limit N"""
+def check_limit(P, N, do_factorize=True, fact_lo=1, tables=True, windows=None):
+    """-> dict(records=[...]) for one limit N; windows = [(lo, hi), ...] restricts the symbolic n to those intervals (default: all of 0..=N)"""
+    windows = windows or [(0, N)]
     out = []
     t0 = time.time()
     m0 = Machine(P)
@@ -135,9 +145,9 @@ def check_limit(P, N, do_factorize=True, fact_lo=1, tables=True):
         return s.model() if r == z3.sat else None
 
     # ---- 1/2: smallest prime factor and primality, n and d symbolic
-    if N >= 2 and tables:
+    for (wlo, whi) in (windows if N >= 2 and tables else []):
         n = z3.BitVec('n', 32)
-        dom = [n >= 2, n <= N]
+        dom = [n >= max(2, wlo), n <= min(N, whi)]
 
         def body(m):
             for c in dom:
@@ -170,18 +180,22 @@ def check_limit(P, N, do_factorize=True, fact_lo=1, tables=True):
                 out.append(dict(name='N=%d is_prime(%d)' % (N, k), status='FAIL', detail='%d reported prime' % k, witness=dict(N=N, n=k)))
     # ---- 3: prime list (a concrete table once N is fixed): strictly increasing, entries prime, complete
     pl = [x.sval() for x in primes.items]
-    want = [k for k in range(2, N + 1) if all(k % q for q in range(2, int(k ** 0.5) + 1))]
+    comp = bytearray(N + 2)
+    for k in range(2, int(N ** 0.5) + 1):
+        if not comp[k]:
+            comp[k * k::k] = b'\x01' * len(comp[k * k::k])
+    want = [k for k in range(2, N + 1) if not comp[k]]
     if pl != want:
         diff = sorted(set(pl) ^ set(want))
         out.append(dict(name='N=%d primes()' % N, status='FAIL', detail='prime list differs from the primes <= N (first difference %s)' % (diff[:3] or 'order'), witness=dict(N=N, n=(diff or [0])[0])))
     # ---- 4: factorisation, n symbolic
     npaths = 0
-    if do_factorize and N >= 1:
+    for (wlo, whi) in (windows if do_factorize and N >= 1 else []):
         n = z3.BitVec('n', 32)
 
         def body(m):
-            m.assume(n >= fact_lo)
-            m.assume(n <= N)
+            m.assume(n >= max(fact_lo, wlo))
+            m.assume(n <= min(N, whi))
             it = m.run(P.one('factorize'), [sref, I(n, 'i32')], {})
             cell = [it]
             fs = []
